@@ -145,7 +145,13 @@ func genCase(rt *rapid.T) *Case {
 		b.add("\t%s", strings.Replace(strings.Replace(strings.Replace(f, "u :=", fmt.Sprintf("u%d :=", i), 1), "w :=", fmt.Sprintf("w%d :=", i), 1), "o :=", fmt.Sprintf("o%d :=", i), 1))
 		b.add("\t_ = %s%d", string(f[0]), i)
 	}
+	// now and then the failing operation stands far to the right on its line (beyond column 4096), after a long
+	// statement on the same line
+	wide := rx.Chance(rt, "wideline", 1, 8) && !strings.HasSuffix(fl.stmts[faultLine[fl.shape]], "{")
 	for i, st := range fl.stmts {
+		if wide && i == faultLine[fl.shape] {
+			st = "_ = len([]int{" + strings.Repeat("0, ", 1600) + "0}); " + st
+		}
 		ln := b.add("\t%s", st)
 		if i == faultLine[fl.shape] {
 			c.Fault = Frame{Func: qual, Line: ln}
